@@ -119,6 +119,7 @@ def tlc_exhaustive(name, cfgtext, timeout, workers=8, use_cache=True):
         st = parse_tlc_stats(text)
         st["cached"] = True
         st["cex"] = extract_scripts(outp, "CEX")
+        st["aborts"] = [js for _, js in extract_scripts(outp, "ABORT")]
         st["wall_s"] = json.load(open(os.path.join(cdir, "done")))["wall_s"]
         return st
     os.makedirs(cdir, exist_ok=True)
@@ -138,6 +139,7 @@ def tlc_exhaustive(name, cfgtext, timeout, workers=8, use_cache=True):
     st["cached"] = False
     st["wall_s"] = dt
     st["cex"] = extract_scripts(outp, "CEX")
+    st["aborts"] = [js for _, js in extract_scripts(outp, "ABORT")]
     if not st.get("completed") and not st["cex"]:
         raise ToolError("TLC did not complete on %s: %s (see %s)" % (name, st.get("errors"), outp))
     with open(os.path.join(cdir, "done"), "w") as f:
@@ -343,6 +345,14 @@ FAMILIES = {
                                 sim=[dict(nobj=3, caps="CapsS3", num=6000, simlen=40), dict(nobj=4, caps="CapsS", num=4000, simlen=50)])),
 }
 
+FAMILIES["elide"] = dict(
+    ops="OpsCore", menu="MenuPlain", profile="elide",
+    invs=["MC_C13x", "MC_C06", "MC_C08", "MC_C04"],
+    quick=dict(mc=[dict(nobj=2, caps="CapsE")],
+               sim=[dict(nobj=2, caps="CapsE3", num=500, simlen=25), dict(nobj=3, caps="CapsE", num=500, simlen=30)]),
+    thorough=dict(mc=[dict(nobj=2, caps="CapsE3"), dict(nobj=3, caps="CapsE", ops="OpsCoreQ")],
+                  sim=[dict(nobj=3, caps="CapsE3", num=6000, simlen=40), dict(nobj=4, caps="CapsE", num=4000, simlen=50)]))
+
 TIERS = {
     "quick": dict(drive=dict(scripts=240, length=60, nobj=5), chunks=6, mc_timeout=900),
     "thorough": dict(drive=dict(scripts=4000, length=150, nobj=7), chunks=14, mc_timeout=7200),
@@ -353,15 +363,15 @@ PROPS = {
     "C02": dict(fams=["core", "weak"], monitor=["C02"], level="model_checking"),
     "C03": dict(fams=["core"], monitor=["C03"], level="model_checking"),
     "C04": dict(fams=["weak", "consume"], monitor=["C04"], level="model_checking"),
-    "C05": dict(fams=["weak", "dtor05"], monitor=["C05"], level="model_checking"),
+    "C05": dict(fams=["weak", "dtor05", "consume"], monitor=["C05"], level="model_checking"),
     "C06": dict(fams=["core", "stale"], monitor=["C06"], level="model_checking"),
     "C08": dict(fams=["core", "stale"], monitor=["C08"], level="model_checking"),
     "C10": dict(fams=["dtor10"], monitor=["C10"], level="model_checking"),
     "C11": dict(fams=["panic"], monitor=["C11"], level="model_checking"),
     "C12": dict(fams=["consume"], monitor=["C12"], level="model_checking"),
-    "C13": dict(fams=["stale"], monitor=["C13x", "C13"], known_prop="C13", level="model_checking"),
+    "C13": dict(fams=["elide", "stale"], monitor=["C13x", "C13"], known_prop="C13", level="model_checking"),
     "C14": dict(fams=["core"], monitor=["C14"], level="model_checking"),
-    "C16": dict(fams=["dtor16"], monitor=["C16"], level="model_checking"),
+    "C16": dict(fams=["dtor16"], monitor=["C16"], child=True, level="model_checking"),
 }
 
 VARIANT = "VFixed"
@@ -412,6 +422,14 @@ def run_check(prop, tier, seed, replay):
                 log("spec: %s nobj=%d caps=%s: %d states generated, %d distinct, depth %s%s" % (
                     fam, c["nobj"], c["caps"], st.get("generated", 0), st.get("distinct", 0), st.get("depth"),
                     " (cached)" if st["cached"] else " in %.0fs" % st["wall_s"]))
+                if P.get("child") and st.get("aborts"):
+                    ab = list(st["aborts"])
+                    random.Random(seed).shuffle(ab)
+                    pth = os.path.join(wd, "specaborts_%s_%d.ndjson" % (fam, i))
+                    with open(pth, "w") as f:
+                        for js in ab[: (60 if tier == "quick" else 600)]:
+                            f.write(js + "\n")
+                    script_files.append(("spec-abort", pth, c["nobj"]))
                 if st["cex"]:
                     # the specification itself violates an invariant of this family: the call
                     # sequences are replayed on the real code and judged there (DESIGN 5.3)
@@ -451,6 +469,7 @@ def run_check(prop, tier, seed, replay):
             script_files.append(("witnesses", pth, 4))
 
     # 5. replay everything on the real code
+    crashes = []
     traces = []
     nscripts = 0
     samples = []
@@ -467,10 +486,28 @@ def run_check(prop, tier, seed, replay):
             with open(sp, "w") as f:
                 f.write("\n".join(part) + "\n")
             tp = os.path.join(wd, "%s_%d.trace" % (label, ci))
-            rc, out, dt = harness(binp, ["replay", sp, tp])
-            if rc != 0:
-                raise ToolError("harness crashed replaying %s (rc=%s): %s" % (sp, rc, (out or "")[-500:]))
-            traces.append(dict(label=label, scripts=sp, trace=tp, nobj=nobj, n=len(part)))
+            while True:
+                rc, out, dt = harness(binp, ["replay", sp, tp])
+                if rc == 0:
+                    break
+                if rc > 0:
+                    raise ToolError("harness failed replaying %s (rc=%s): %s" % (sp, rc, (out or "")[-500:]))
+                # the process was killed by a signal inside the library: that is data.  The
+                # script that crashed is the first one that is missing from the trace file.
+                done = 0
+                if os.path.exists(tp):
+                    done = sum(1 for l in open(tp) if l.startswith('{"k":"reset"'))
+                if done >= len(part):
+                    raise ToolError("harness died after the last script of %s (rc=%s)" % (sp, rc))
+                crashes.append(dict(script=part[done], signal=-rc, label=label))
+                log("the library crashed the harness (signal %d) on a script from %s" % (-rc, label))
+                part = part[:done] + part[done + 1:]
+                if not part or len(crashes) > 20:
+                    break
+                with open(sp, "w") as f:
+                    f.write("\n".join(part) + "\n")
+            if part and rc == 0:
+                traces.append(dict(label=label, scripts=sp, trace=tp, nobj=nobj, n=len(part)))
     if drive_traces:
         traces.extend(drive_traces)
         nscripts += sum(t["n"] for t in drive_traces)
@@ -509,6 +546,55 @@ def run_check(prop, tier, seed, replay):
     for h, m2, t2 in running:
         collect(h, m2, t2)
 
+    # 6b. child mode (C16): every script in which the harness predicted a process abort is run
+    # again in a child process that really makes the call; the parent appends how it ended
+    nchild = 0
+    if P.get("child") and not replay:
+        cands = []
+        for t in traces:
+            cur = None
+            sl = None
+            with open(t["trace"]) as f:
+                for l in f:
+                    if l.startswith('{"k":"reset"'):
+                        cur = json.loads(l)["script"]
+                    elif '"ret":"abort"' in l and cur is not None:
+                        if sl is None:
+                            sl = open(t["scripts"]).read().splitlines()
+                        cands.append((sl[cur], t["nobj"]))
+                        cur = None
+        random.Random(seed).shuffle(cands)
+        cands = cands[: (40 if tier == "quick" else 400)]
+        ctraces = []
+        for i, (js, nobj) in enumerate(cands):
+            sp = os.path.join(wd, "child_%d.ndjson" % i)
+            tp = os.path.join(wd, "child_%d.trace" % i)
+            with open(sp, "w") as f:
+                f.write(js + "\n")
+            rc, out, dt = harness(binp, ["child", sp, tp], timeout=120)
+            with open(tp, "a") as f:
+                if rc < 0:
+                    f.write('{"k":"died","sig":%d}\n' % (-rc))
+            ctraces.append((sp, tp, nobj))
+        nchild = len(ctraces)
+        # one concatenated trace (script numbers = positions)
+        if ctraces:
+            allsp = os.path.join(wd, "children.ndjson")
+            alltp = os.path.join(wd, "children.trace")
+            with open(allsp, "w") as fs, open(alltp, "w") as ft:
+                for i, (sp, tp, nobj) in enumerate(ctraces):
+                    fs.write(open(sp).read())
+                    for l in open(tp):
+                        if l.startswith('{"k":"reset"'):
+                            l = '{"k":"reset","script":%d,"layout":0}\n' % i
+                        ft.write(l)
+            t = dict(label="child", scripts=allsp, trace=alltp, nobj=max(n for _, _, n in ctraces), n=len(ctraces))
+            for mode in ("mon", "conf"):
+                h = start_trace_tlc(mode, alltp, t["nobj"], VARIANT, P["monitor"], "%s_%s_child" % (prop, mode))
+                collect(h, mode, t)
+            nscripts += len(ctraces)
+            log("child mode: %d scripts with a predicted abort re-run with the real call" % len(ctraces))
+
     # 7. verdict.  A property with a known finding has two monitors: the strict one (its
     # violations are instances of the finding when the finding's cause predicate explains
     # them) and the one with the finding excused (its violations are new).
@@ -544,6 +630,14 @@ def run_check(prop, tier, seed, replay):
             n = sum(len(v) for v in known_hits.values())
             print("KNOWN-FINDING: property=%s %s (%s; %d instance(s) in this run, e.g. %s)" % (
                 prop, k["what"], k.get("site", ""), n, (list(known_hits.values())[0][0][:200] if n else "witness not triggered")))
+    for c in crashes:
+        js = c["script"]
+        hsh = hashlib.sha256(js.encode()).hexdigest()[:12]
+        rp = os.path.join(REPLAYS, "%s_%s.ndjson" % (prop, hsh))
+        with open(rp, "w") as f:
+            f.write(js + "\n")
+        out_viol.append(dict(replay=rp, script=fmt_script(json.loads(js)) + "  [process killed by signal %d inside the library]" % c["signal"],
+                             source=c["label"]))
     for v in out_viol[:10]:
         print("VIOLATION property=%s replay=%s" % (prop, v["replay"]))
         print("  history: %s" % v["script"])
@@ -566,6 +660,8 @@ def run_check(prop, tier, seed, replay):
                        for s in spec_stats],
             drift=len(drift),
             known_finding_instances=sum(len(v) for v in known_hits.values()),
+            child_process_runs=nchild,
+            library_crashes=len(crashes),
             rule="TLC model-checks each family's configuration exhaustively (all call histories within the caps, all iteration "
                  "orders); TLC-generated call sequences (simulation mode) and random histories are executed on the real library "
                  "and every recorded trace is judged by TLC with the specification's own definition of the property (Monitor) "
